@@ -14,3 +14,10 @@ UNITS = [
        note="integer PCM packing, case %s: parameter errors, frame count, position advance, untouched bytes, value of every output byte (ghost channel/frame)" % CASES[c])
   for c in CASES
 ]
+UNITS += [
+  Unit("vf_read_float", ["C07", "C20", "C03", "C12"], "lib/vorbisfile.c", enforce="ov_read_float", harness="h_vf_readfloat.c", entry="h_vf_readfloat", kind="B", unwind_cut=["ov_read_float.0:3"],
+       bound="<= 2 packet fetches per call (the fetch loop is cut after 2 iterations: 6.11 rejects a loop contract here - a body-local is assigned and the stub allocates inside the loop)",
+       replace=["vorbis_synthesis_read", "vorbis_synthesis_halfrate_p", "_fetch_and_process_packet"], reach=3, no_overflow=True, timeout=600,
+       assumed=["length >= 1 (a non-positive length is API misuse: it would 'consume' a non-positive count)", "decoder interface (pcmout stub, read, halfrate_p) and _fetch_and_process_packet by assumed contracts; termination of the fetch loop depends on the data source"],
+       note="float read: returns min(pending, length) samples of the row table the decoder handed out, consumes exactly that many, advances the position by exactly that many <<hs after any number of packet fetches, reports the current link; otherwise consumes nothing and returns 0 (end of data) or the fetch error"),
+]
